@@ -6,6 +6,7 @@ package main
 
 import (
 	"fmt"
+	"go/types"
 	"sort"
 	"strings"
 
@@ -360,6 +361,8 @@ func checkStripper(res *Result, p *Pub, rule, fnName string, recursive bool) {
 	if recursive {
 		res.check(recursed, rule, fnName, p.pos(fn), "clearing recurses into 'object'", "no recursive call")
 	}
+	checkStripperUnconditional(res, p, rule, fn)
+	checkGuardCoversProperty(res, p, rule, fn)
 	if loopCall != nil {
 		tot, why := totalLoop(loopBlocks(loopCall.Block()), func(*ssa.Return) bool { return false })
 		res.check(tot, rule, fnName, p.pos(loopCall), "the loop over 'object' visits every element (cannot be left early)", why)
@@ -405,4 +408,159 @@ func checkWhoMayDeliver(res *Result, p *Pub, E *Effects, rule string) {
 		}
 	}
 	res.check(n >= 1, rule, "pub", "-", "a Transport delivery call exists", "none found")
+}
+
+
+// checkStripperUnconditional: nothing can return from the stripper before the
+// value itself has been examined for bto, for bcc and for 'object'. The
+// examination of a member is the setter/getter call on the parameter itself
+// or, where the member is reached through a type assertion on the parameter,
+// that assertion; each must dominate every return of the function.
+func checkStripperUnconditional(res *Result, p *Pub, rule string, fn *ssa.Function) {
+	prm := fn.Params[0]
+	baseOf := func(v ssa.Value) (ssa.Value, ssa.Instruction) {
+		v = unwrap(v)
+		if ta, ok := v.(*ssa.TypeAssert); ok {
+			return unwrap(ta.X), ta
+		}
+		if ex, ok := v.(*ssa.Extract); ok {
+			if ta, ok := ex.Tuple.(*ssa.TypeAssert); ok {
+				return unwrap(ta.X), ta
+			}
+		}
+		return v, nil
+	}
+	anchors := map[string]ssa.Instruction{}
+	for _, ci := range callsIn(fn) {
+		cc := ci.Common()
+		if !cc.IsInvoke() {
+			continue
+		}
+		m := cc.Method.Name()
+		if m != "SetActivityStreamsBto" && m != "SetActivityStreamsBcc" && m != "GetActivityStreamsObject" {
+			continue
+		}
+		base, ta := baseOf(cc.Value)
+		if base != ssa.Value(prm) {
+			continue
+		}
+		if ta != nil {
+			anchors[m] = ta
+		} else {
+			anchors[m] = ci
+		}
+	}
+	for _, m := range []string{"SetActivityStreamsBto", "SetActivityStreamsBcc", "GetActivityStreamsObject"} {
+		a := anchors[m]
+		if a == nil {
+			res.bad(rule, fname(fn), p.pos(fn), m+" is applied to the value itself", "no such call on the parameter")
+			continue
+		}
+		ok := true
+		where := ""
+		for _, r := range returnsIn(fn) {
+			if !dominates(a, r) {
+				ok = false
+				where = p.pos(r)
+			}
+		}
+		res.check(ok, rule, fname(fn), p.pos(a), "nothing returns before "+m+" (or the type test guarding it) has been reached", "the return at "+where+" can be reached without it: some values leave with hidden recipients in place")
+	}
+}
+
+// vocabTypeIfaces: the interfaces of streams/vocab that describe a type (not a
+// property or iterator): they have GetTypeName, VocabularyURI and JSONLDContext.
+func vocabTypeIfaces(p *Pub) []*types.Named {
+	var out []*types.Named
+	for _, imp := range p.Pkg.Imports {
+		if !strings.HasSuffix(imp.PkgPath, "/streams/vocab") {
+			continue
+		}
+		sc := imp.Types.Scope()
+		for _, n := range sc.Names() {
+			tn, ok := sc.Lookup(n).(*types.TypeName)
+			if !ok {
+				continue
+			}
+			named, ok := tn.Type().(*types.Named)
+			if !ok {
+				continue
+			}
+			it, ok := named.Underlying().(*types.Interface)
+			if !ok {
+				continue
+			}
+			has := map[string]bool{}
+			for i := 0; i < it.NumMethods(); i++ {
+				has[it.Method(i).Name()] = true
+			}
+			if has["GetTypeName"] && has["VocabularyURI"] && has["JSONLDContext"] && has["IsExtending"] {
+				out = append(out, named)
+			}
+		}
+	}
+	return out
+}
+
+// checkGuardCoversProperty: where the stripper reaches bto / bcc / object
+// through a type assertion x.(I), I must be implemented by every vocabulary
+// type that has that member — otherwise values of the excluded types keep
+// their hidden recipients (or are not descended into).
+func checkGuardCoversProperty(res *Result, p *Pub, rule string, fn *ssa.Function) {
+	vts := vocabTypeIfaces(p)
+	res.Count(rule+" vocabulary type interfaces", len(vts), 50)
+	seen := map[string]bool{}
+	for _, ci := range callsIn(fn) {
+		cc := ci.Common()
+		if !cc.IsInvoke() {
+			continue
+		}
+		m := cc.Method.Name()
+		if m != "SetActivityStreamsBto" && m != "SetActivityStreamsBcc" && m != "GetActivityStreamsObject" {
+			continue
+		}
+		var ta *ssa.TypeAssert
+		v := unwrap(cc.Value)
+		if t, ok := v.(*ssa.TypeAssert); ok {
+			ta = t
+		} else if ex, ok := v.(*ssa.Extract); ok {
+			ta, _ = ex.Tuple.(*ssa.TypeAssert)
+		}
+		if ta == nil {
+			continue
+		}
+		iface, ok := ta.AssertedType.Underlying().(*types.Interface)
+		if !ok {
+			continue
+		}
+		key := m + "|" + typeShort(ta.AssertedType)
+		if seen[key] {
+			continue
+		}
+		seen[key] = true
+		var excluded []string
+		n := 0
+		for _, vt := range vts {
+			vi := vt.Underlying().(*types.Interface)
+			hasM := false
+			for i := 0; i < vi.NumMethods(); i++ {
+				if vi.Method(i).Name() == m {
+					hasM = true
+				}
+			}
+			if !hasM {
+				continue
+			}
+			n++
+			if !types.Implements(vt, iface) {
+				excluded = append(excluded, vt.Obj().Name())
+			}
+		}
+		sort.Strings(excluded)
+		detail := ""
+		if len(excluded) > 0 {
+			detail = fmt.Sprintf("%d of the %d vocabulary types with that member do not satisfy %s, e.g. %s", len(excluded), n, typeShort(ta.AssertedType), strings.Join(excluded[:min(len(excluded), 4)], ", "))
+		}
+		res.check(len(excluded) == 0 && n > 0, rule, fname(fn), p.pos(ta), fmt.Sprintf("the type test %s guarding %s admits every vocabulary type that has the member", typeShort(ta.AssertedType), m), detail)
+	}
 }
